@@ -1204,7 +1204,7 @@ def classify_events(R):
     return first, second
 
 
-def open_image(img_dir, second_pack=False):
+def open_image(img_dir, second_pack=False, hexed=False):
     """open the materialised image with the real FileStorage → (dump, problem-or-None); optionally run a
     SECOND pack on the reopened storage and check it against its own state before"""
     path = os.path.join(img_dir, 'Data.fs')
@@ -1220,7 +1220,11 @@ def open_image(img_dir, second_pack=False):
             return d, 'index and log disagree: ' + e
         # the reopened storage accepts a commit
         try:
-            db = ZODB.DB(fs)
+            if hexed:
+                from ZODB.tests.hexstorage import HexStorage
+                db = ZODB.DB(HexStorage(fs))
+            else:
+                db = ZODB.DB(fs)
             c = db.open()
             c.root()['reopened'] = 1
             transaction.commit()
@@ -1414,7 +1418,8 @@ def run_crash_scenario(ck, P, tier_thorough, only_cut=None):
     during = any(e[0] == 'mark' for e in evs[first_pack_write:first])
     for (k, nb) in cuts:
         vfs.materialize(R['init'], evs, k, nb, img)
-        D, problem = open_image(img, second_pack=(nb is None and (tier_thorough or k % 2 == 0)))
+        D, problem = open_image(img, second_pack=(nb is None and (tier_thorough or k % 2 == 0)),
+                                hexed=bool(P.get('hex')))
         verdict = crash_oracle(R, U, Pk, k, D, problem)
         nontriv = k > first_pack_write and during
         ck.case(dict(kind='crash', P=P, cut=[k, nb]), nontriv,
@@ -1905,7 +1910,32 @@ def policy_blob_dir_race(crole):
     ])
 
 
+def open_blob_storage(root, P):
+    """FileStorage with blobs along one construction path: constructor / ZODB.config, layout bushy / lawn,
+    pack_keep_old, pack_gc; or a BlobStorage wrapper around a plain FileStorage"""
+    path, bdir = os.path.join(root, 'Data.fs'), os.path.join(root, 'blobs')
+    keep, gc = P.get('keep_old', True), P.get('pack_gc', True)
+    if P.get('layout') == 'lawn' and not os.path.exists(bdir):
+        os.makedirs(bdir)
+        with _real_open(os.path.join(bdir, '.layout'), 'w') as f:
+            f.write('lawn')
+    if P.get('ctor') == 'config':
+        from ZODB.config import databaseFromString
+        db = databaseFromString(
+            '<zodb>\n<filestorage>\npath %s\nblob-dir %s\npack-keep-old %s\npack-gc %s\n</filestorage>\n</zodb>\n'
+            % (path, bdir, 'true' if keep else 'false', 'true' if gc else 'false'))
+        return db.storage, db
+    if P.get('ctor') == 'blobstorage':
+        from ZODB.blob import BlobStorage
+        fs = FileStorage(path, pack_keep_old=keep, pack_gc=gc)
+        return fs, ZODB.DB(BlobStorage(bdir, fs))
+    fs = FileStorage(path, blob_dir=bdir, pack_keep_old=keep, pack_gc=gc)
+    return fs, ZODB.DB(fs)
+
+
 def blob_data(k, i):
+    if (k, i) == (2, 1):
+        return b''                  # a zero-length blob
     return ('blob %d.%d ' % (k, i)).encode() * 5
 
 
@@ -1923,8 +1953,7 @@ def run_blob_sched(P, tmp, schedule=None):
     note = Note()
     obs = dict(P=P)
     with clock.scripted() as clk, sched.installed(), vfs.install(rec):
-        fs = FileStorage(path, blob_dir=os.path.join(root, 'blobs'), pack_keep_old=P.get('keep_old', True))
-        db = ZODB.DB(fs)
+        fs, db = open_blob_storage(root, P)
         c = db.open()
         r = c.root()
         for k in (1, 2):
@@ -1975,6 +2004,12 @@ def run_blob_sched(P, tmp, schedule=None):
                         tm.commit()
                         K[name]._p_activate()       # (a committed blob is a ghost until touched)
                         returned.append((K[name]._p_serial, k, name, blob_data(k, i)))
+                        try:                        # storage-level reader of the blob just committed
+                            with _real_open(db.storage.loadBlob(K[name]._p_oid, K[name]._p_serial), 'rb') as bf:
+                                if bf.read() != blob_data(k, i):
+                                    out.append('raised:loadBlob:wrong-data')
+                        except Exception as e:      # noqa: B902
+                            out.append('raised:loadBlob-%s:%s' % (type(e).__name__, e))
                         note('commit-returned')
                         out.append('ok')
                     except ConflictError:
@@ -2003,7 +2038,7 @@ def run_blob_sched(P, tmp, schedule=None):
                         for n in [n for n in K.keys() if n.startswith('b')]:
                             with K[n].open('r') as f:
                                 d = f.read()
-                            ok = ok and d.startswith(('blob %s.' % n[1]).encode())
+                            ok = ok and (d == b'' or d.startswith(('blob %s.' % n[1]).encode()))
                     out.append(ok)
                 except Exception as e:          # noqa: B902
                     out.append('raised:%s' % type(e).__name__)
@@ -2053,8 +2088,7 @@ def run_blob_sched(P, tmp, schedule=None):
             try:
                 pr += _blob_verify(fs, db, returned)
                 db.close()
-                fs2 = FileStorage(path, blob_dir=os.path.join(root, 'blobs'))
-                db2 = ZODB.DB(fs2)
+                fs2, db2 = open_blob_storage(root, P)
                 try:
                     pr += [('reopen-' + a, b) for a, b in _blob_verify(fs2, db2, returned)]
                 finally:
@@ -2116,7 +2150,9 @@ def run_blob_case(ck, case):
 def gen_blob_params(rng, i):
     return dict(seed=rng.randrange(10 ** 9), stick=rng.choice([0.0, 0.3, 0.6, 0.9]), committers=rng.choice([1, 2]),
                 commits=rng.choice([1, 2, 3]), reads=rng.choice([0, 2]), keep_old=rng.choice([True, False]),
-                keeper=int(i % 4 == 3), rewrite=rng.choice([0, 1]), directed=int(i % 2 == 0))
+                keeper=int(i % 4 == 3), rewrite=rng.choice([0, 1]), directed=int(i % 2 == 0),
+                layout=['bushy', 'lawn'][i % 3 == 1], ctor=['direct', 'config', 'direct', 'blobstorage'][i % 4],
+                pack_gc=bool(i % 5 != 4))
 
 
 # ------------------------------------------------------------------------------------------------
@@ -2223,8 +2259,7 @@ def blob_fault_run(P, tmp, fail_at):
     rec = vfs.Recorder(root)
     o = dict(fail_at=fail_at, problems=[])
     with clock.scripted() as clk, vfs.install(rec):
-        fs = FileStorage(path, blob_dir=os.path.join(root, 'blobs'), pack_keep_old=P.get('keep_old', True))
-        db = ZODB.DB(fs)
+        fs, db = open_blob_storage(root, P)
         c = db.open()
         r = c.root()
         r['x'] = PersistentMapping(v=0)
@@ -2760,7 +2795,8 @@ def main(argv=None):
         cases += [dict(kind='fault', P=gen_fault_params(ck.rng, i)) for i in range(nfault)]
         nblob = 40 if not ck.thorough else 1000
         cases += [dict(kind='blob', P=gen_blob_params(ck.rng, i)) for i in range(nblob)]
-        cases += [dict(kind='blobfault', P=dict(keep_old=ko, garbage=g))
+        cases += [dict(kind='blobfault', P=dict(keep_old=ko, garbage=g, layout=['bushy', 'lawn'][int(ko)],
+                                                 ctor=['config', 'direct'][int(ko)]))
                   for ko in (True, False) for g in ((0, 1) if ck.thorough else (ko,))]
         cases += [dict(kind='prepack', P=dict(kind=kd, pre=pre, after=2, close_first=cf))
                   for kd in ('mvccmapping', 'mapping', 'file') for pre in (1, 3) for cf in (0, 1)]
